@@ -1531,6 +1531,8 @@ class Jump(BasicOperator):
             if coeffs:
                 a = Mul(*coeffs)
 
+            # the jump of a product of functions is neither a derivation nor multiplicative
+            # (jump(f*g) = minus(f)*minus(g) - plus(f)*plus(g)): it is kept as it is
             b = S.One
             if vectors:
                 try:
@@ -1538,18 +1540,8 @@ class Jump(BasicOperator):
                         f = vectors[0]
                         b = cls(f)
 
-                    elif len(vectors) == 2:
-                        f,g = vectors
-                        b = f*cls(g) + g*cls(f)
-
                     else:
-                        left = vectors[0]
-                        right = Mul(*vectors[1:])
-
-                        f_left  = cls(left, evaluate=True)
-                        f_right = cls(right, evaluate=True)
-
-                        b = left * f_right + f_left * right
+                        b = cls(Mul(*vectors), evaluate=False)
 
                 except:
                     b = cls(Mul(*vectors), evaluate=False)
@@ -1604,6 +1596,9 @@ class Average(BasicOperator):
             if coeffs:
                 a = Mul(*coeffs)
 
+            # the average of a constant is the constant; the average of a product
+            # of functions is neither a derivation nor multiplicative
+            # (avg(f*g) = (minus(f)*minus(g) + plus(f)*plus(g))/2): it is kept as it is
             b = S.One
             if vectors:
                 try:
@@ -1611,18 +1606,8 @@ class Average(BasicOperator):
                         f = vectors[0]
                         b = cls(f)
 
-                    elif len(vectors) == 2:
-                        f,g = vectors
-                        b = f*cls(g) + g*cls(f)
-
                     else:
-                        left = vectors[0]
-                        right = Mul(*vectors[1:])
-
-                        f_left  = cls(left, evaluate=True)
-                        f_right = cls(right, evaluate=True)
-
-                        b = left * f_right + f_left * right
+                        b = cls(Mul(*vectors), evaluate=False)
 
                 except:
                     b = cls(Mul(*vectors), evaluate=False)
@@ -1673,25 +1658,11 @@ class MinusInterfaceOperator(BasicOperator):
             if coeffs:
                 a = Mul(*coeffs)
 
+            # the restriction to one side of the interface is multiplicative
             b = S.One
             if vectors:
                 try:
-                    if len(vectors) == 1:
-                        f = vectors[0]
-                        b = cls(f)
-
-                    elif len(vectors) == 2:
-                        f,g = vectors
-                        b = f*cls(g) + g*cls(f)
-
-                    else:
-                        left = vectors[0]
-                        right = Mul(*vectors[1:])
-
-                        f_left  = cls(left, evaluate=True)
-                        f_right = cls(right, evaluate=True)
-
-                        b = left * f_right + f_left * right
+                    b = Mul(*[cls(f) for f in vectors])
 
                 except:
                     b = cls(Mul(*vectors), evaluate=False)
@@ -1768,25 +1739,11 @@ class PlusInterfaceOperator(BasicOperator):
             if coeffs:
                 a = Mul(*coeffs)
 
+            # the restriction to one side of the interface is multiplicative
             b = S.One
             if vectors:
                 try:
-                    if len(vectors) == 1:
-                        f = vectors[0]
-                        b = cls(f)
-
-                    elif len(vectors) == 2:
-                        f,g = vectors
-                        b = f*cls(g) + g*cls(f)
-
-                    else:
-                        left = vectors[0]
-                        right = Mul(*vectors[1:])
-
-                        f_left  = cls(left, evaluate=True)
-                        f_right = cls(right, evaluate=True)
-
-                        b = left * f_right + f_left * right
+                    b = Mul(*[cls(f) for f in vectors])
 
                 except:
                     b = cls(Mul(*vectors), evaluate=False)
